@@ -357,6 +357,16 @@ func genG12(repo string, w *Out) error {
 		}
 	}
 	w.DefBool("upgrade_clears_close", upg)
+	// a body of unknown length from an upstream that closes its connection (res.Close): delivered in chunks to an
+	// HTTP/1.1 client (case len(res.TransferEncoding) == 0) or left close-delimited (… && !res.Close)
+	switch {
+	case g12Has(wr, "case len(res.TransferEncoding) == 0"):
+		w.DefBool("close_delimited_rechunked", true)
+	case g12Has(wr, "case len(res.TransferEncoding) == 0 && !res.Close"):
+		w.DefBool("close_delimited_rechunked", false)
+	default:
+		w.DefBool("close_delimited_rechunked", false) // the source has no re-framing block: relayed as received
+	}
 	// order of the cases of the write switch: a response that must not have a body (isHeaderOnlySpec: 1xx, 204, 304,
 	// reply to HEAD — its Body may be the panicking placeholder of an upgrade) is written by writeHeaderOnlyResponse
 	// BEFORE any case that calls res.Write (event stream, chunk flushing, default)
